@@ -102,6 +102,9 @@ def parseLine (views : Views) (ws : List String) : Option (Views × Option TEv) 
     | ["status", i, st, il, lid, tok, rev, il2] =>
       ev (.status (← parseNat i) (← parseNat st) (← parseBool il) (← parseNat lid) (← parseNat tok) (← parseNat rev) (← parseBool il2))
     | ["observe", i] => ev (.observe (← parseNat i))
+    | ["promgauge", i, v] => ev (.promGauge (← parseNat i) (← parseInt v))
+    | ["promtrans", i, n] => ev (.promTrans (← parseNat i) (← parseNat n))
+    | ["mpanic", i, m] => ev (.metricsPanic (← parseNat i) m)
     | ["snap", i, st, il, lid, tok] =>
       ev (.snap (← parseNat i) (← parseNat st) (← parseBool il) (← parseNat lid) (← parseNat tok))
     | ["health", i, k, r, rem] => ev (.health (← parseNat i) (← parseNat k) (← parseBool r) (← parseInt rem))
